@@ -28,7 +28,7 @@ ALLOW_UNCONSTRAINED = {
     "tinit.via", "tobs.t", "pobs.p", "tinit.t", "tfrom.t", "tnew.t", "pinit.p", "pnew.p", "pclear.p",
     "bsvalid.swept", "cap.border", "fnvinit.states",
     "stream.n", "file.what", "file.meta", "file.delivered",
-    "ctor.fn", "ctor.T", "cap.n", "stream.r.id", "stream.r.kind", "file.r.id", "file.r.kind",
+    "fin.probe.*", "ctor.fn", "ctor.T", "cap.n", "stream.r.id", "stream.r.kind", "file.r.id", "file.r.kind",
     # INPUT fields: the recorded outputs may by coincidence also be right for the corrupted input
     # (e.g. changing one symbol of a string that shares no 7-gram anyway)
     "fix.n", "ss.n", "sub.a", "sub.b", "ed.a", "ed.b", "ss.a", "ss.b", "pinit.s", "pobs.equiv.*.s", "fmt.bufs.*.n",
